@@ -23,7 +23,7 @@ RULE = (
     "Distinct by rendered expression."
 )
 ASSUMPTIONS = [
-    "expressions whose reference automaton has 1500 or more states are not judged (compilation time grows with the automaton, which nested counted groups make exponential in the text; a time limit cannot tell slow from stuck)",
+    "expressions whose reference automaton has 1200 or more states are not judged (compilation time grows with the automaton, which nested counted groups make exponential in the text; a time limit cannot tell slow from stuck)",
     "{n,m} with m < n is unspecified upstream and not generated",
     "'rejected' = Schema(...) raises any exception (the port signals malformed expressions with SyntaxError, and with "
     "TypeError when the expression ends where an atom is expected)",
@@ -103,7 +103,7 @@ def generate(R: Draw, tier: str) -> dict:
     return {"mode": R.choice(["block", "block", "inline"]), "expr": s, "malformed_by_construction": True}
 
 
-LARGE_AUTOMATON = 1500  # reference derivative states; above this a case is inconclusive (see check)
+LARGE_AUTOMATON = 1200  # reference derivative states; above this a case is inconclusive (see check)
 
 
 def spec_for(case: dict) -> dict:
@@ -153,6 +153,11 @@ def check(case: dict, ctx: Ctx) -> None:
         ctx.label("skipped:automaton-too-large")
         return
     o = call("schema", Schema, spec, reject=(Exception,))
+    if rs is None and "unspecified upstream" in (ref_err or ""):
+        # {n,m} with m < n: neither the documentation nor upstream says what it means (upstream compiles it to
+        # something); whatever the library does with it is outside the statement
+        ctx.label("skipped:range-max-below-min")
+        return
     if rs is None:
         require(not o.ok, "reject:accepted-malformed", f"Schema accepted {case['expr']!r}; reference: {ref_err}")
         ctx.label("rejected:" + type(o.exc).__name__)
